@@ -9,7 +9,7 @@ ID = 'C08'
 LEVEL = 'exploration'
 RULE = ('complete enumeration of order x mode sizes x dtype x (standard | generalised with HPD right operator) x EVERY '
         'admissible guess rank vector x solver {eig, eigh, eigs}; per point: number_ev {1,2}, repeats {1,2,3}, sigma '
-        '{above the spectrum, interior}, deflation sets {[], [v1], [v1,v2]} x shifts {-1,-5} (exact eigentensors and generic '
+        '{above the spectrum, interior}, deflation sets {[], [v1], [v1,v2], [v1,v2,generic]} x shifts {-1,-5} (exact eigentensors and generic '
         'tensors), exact dominant eigentensor as guess, maximal-rank guess, power iteration; a monitor on every micro-step '
         'checks micro matrices = F^H (A + shift*sum p p^H) F and F^H B F for the current frame and the monotone Ritz '
         'sequence. Non-trivial: complex data, a generalised problem, a deflation set, or a guess rank > 1.')
@@ -206,6 +206,8 @@ def run_case(case, seed):
         gen = tt_from(rand_cores(rng, dims, [1] * d, [1] * (d + 1), c)); gen = (1.0 / gen.norm()) * gen
         e1 = TT(np.array(evecs[:, -1]).reshape(dims + [1] * d)); e2 = TT(np.array(evecs[:, -2]).reshape(dims + [1] * d)) if n > 1 else None
         sets = [('v1', [e1])] + ([('v1v2', [e1, e2])] if e2 is not None else []) + [('generic', [gen])]
+        if e2 is not None and n > 2:
+            sets.append(('v1v2generic', [e1, e2, gen]))          # three deflation terms (accumulation over more than two)
         for pname, P in sets:
             sP = [snap(p) for p in P]
             for shift in (-1.0, -5.0):
